@@ -52,6 +52,22 @@ def build_special(spec):
                 pos += [geo.wrap(cell, p1 + np.array([7.0 * len(pos), 0, 0])), geo.wrap(cell, p2 + np.array([7.0 * len(pos), 0, 0]))]
         with quiet():
             return Atoms(elements=els, positions=np.array(pos), cell=cell), els, np.array(pos), cell
+    if spec['special'] == 'molecule-ends':
+        # no cell: heavy atoms (cutoffs above 3 A) at the two ends of an elongated molecule -- far apart, nothing to do with each other
+        e1, e2 = spec['elements']
+        L = spec_cutoff(e1, e2) + spec.get('extra', 3.5)
+        ax = spec.get('axis', 0)
+        pos = [np.zeros(3), np.zeros(3), np.zeros(3), np.zeros(3)]
+        pos[1][ax] = L
+        pos[2][ax] = L / 2.0
+        pos[2][(ax + 1) % 3] = 0.3
+        pos[3][ax] = L / 2.0 + 1.0
+        pos[3][(ax + 2) % 3] = -0.2
+        els = [e1, e2, 'C', 'H']
+        off = np.array([rnd.uniform(-5, 5) for _ in range(3)])
+        pos = np.array(pos) + off
+        with quiet():
+            return Atoms(elements=els, positions=pos), els, pos, None
     cell = geo.CELLS['cubic']
     els, pos = [], []
     for k, (depth, dist) in enumerate([(1.55, 1.9), (1.9, 1.95), (1.7, 1.96), (0.2, 1.9), (1.0, 1.5)]):
@@ -106,6 +122,22 @@ def check(spec):
         if not extra and not missing:
             return "bonds reported in a different order or more than once: %r" % (got,)
         return "detected bonds differ from the rule: unexpected %r, missing %r" % (extra[:4], missing[:4])
+    if spec.get('then') and cell is not None:
+        # the same object analysed again after its cell was changed / a supercell made of it: the answer is that of the structure as it is then
+        with quiet():
+            if spec['then'] == 'new-cell':
+                a.cell = np.asarray(cell) * np.array([[1.0], [1.25], [1.1]])
+                els2, pos2, cell2, b = els, pos, np.asarray(a.cell, dtype=float), a
+            else:
+                b = a.replicate((2, 1, 1))
+                els2, pos2, cell2 = list(b.elements), np.asarray(b.positions, dtype=float), np.asarray(b.cell, dtype=float)
+            try:
+                got2 = [tuple(int(v) for v in x) for x in detect_bonds(b)]
+            except Exception as e:
+                return "second detect_bonds raised %r" % (e,)
+        want2 = expected_bonds(els2, pos2, cell2)
+        if got2 != want2:
+            return "after %s: detected bonds differ from the rule: unexpected %r, missing %r" % (spec['then'], sorted(set(got2) - set(want2))[:4], sorted(set(want2) - set(got2))[:4])
     t = spec.get('transform')
     if t and cell is not None:
         from mofun import Atoms
@@ -201,6 +233,22 @@ def run(rec, tier, seed):
             rec.case(repr(sorted(spec.items(), key=str)), group='uneven-through-face')
             if msg:
                 rec.fail('bonds', 'detect_bonds-face', "%s on %r" % (msg, spec), spec, 'C17/detect_bonds/post')
+    for (e1, e2) in (('I', 'I'), ('K', 'O'), ('Cs', 'Cs'), ('Ba', 'I'), ('Rb', 'Cl')):
+        for axis in range(3):
+            for extra in (2.9, 3.5):
+                spec = dict(special='molecule-ends', elements=[e1, e2], axis=axis, extra=extra, seed=seed + axis)
+                msg = check(spec)
+                rec.case(repr(sorted(spec.items(), key=str)), group='molecule-without-cell')
+                if msg:
+                    rec.fail('bonds', 'detect_bonds', "%s on %r" % (msg, spec), spec, 'C17/detect_bonds/post')
+    for cell in ('cubic', 'tri+', 'tri-'):
+        for then in ('new-cell', 'supercell'):
+            for sd in range(2 if tier == 'quick' else 6):
+                spec = dict(cell=cell, pairs=3, seed=seed * 1000 + 500 + sd, straddle=True, transform=None, then=then)
+                msg = check(spec)
+                rec.case(repr(sorted(spec.items(), key=str)), group='analysed-again')
+                if msg:
+                    rec.fail('bonds', 'detect_bonds', "%s on %r" % (msg, spec), spec, 'C17/detect_bonds/post')
     nseed = 6 if tier == 'quick' else 40
     for cell in (None, 'cubic', 'tri+', 'tri-'):
         for pairs in (1, 2, 4):
